@@ -12,8 +12,10 @@ git checkout -q -- . 2>/dev/null
 git apply "$out/patch.diff" || { echo "patch does not apply in the worktree"; exit 1; }
 t=$(CARGO_NET_OFFLINE=true cargo test --workspace --no-fail-fast --offline 2>&1 | grep -E "^test result" | awk '{p+=$4; f+=$6} END {print p" "f}')
 echo "tests with change: passed/failed = $t"
+cmd=$(python3 -c "import json,sys; print(json.load(open('$out/meta.json')).get('demo_command',''))" 2>/dev/null | sed 's/ *(.*$//')
 run_demo() {
-  if [ -f "$demo/Cargo.toml" ]; then (cd "$demo" && CARGO_NET_OFFLINE=true timeout 1200 cargo run --offline >/tmp/seed_demo_$n.log 2>&1; echo $?)
+  if [ -n "$cmd" ] && echo "$cmd" | grep -q "cargo\|\.sh\|node"; then (CARGO_NET_OFFLINE=true timeout 1500 bash -c "$cmd" >/tmp/seed_demo_$n.log 2>&1; echo $?)
+  elif [ -f "$demo/Cargo.toml" ]; then (cd "$demo" && CARGO_NET_OFFLINE=true timeout 1200 cargo run --offline >/tmp/seed_demo_$n.log 2>&1; echo $?)
   elif [ -x "$demo/run.sh" ]; then (cd "$demo" && timeout 1200 ./run.sh >/tmp/seed_demo_$n.log 2>&1; echo $?)
   else echo "no demo"; fi
 }
